@@ -98,11 +98,14 @@ package utils
 // civilYearStart(y, l): abs of 1 January 00:00 of year y in location l; civilYear(a, l): the civil year of
 // instant a in location l. dayNs = 86400e9.
 
+//@ ghost func civilDate(y int, m int, d int, l int) int
+//@ axiom #midnight: forallint(y, m, d, l, pattern(civilDate(y, m, d, l)), (m == 1 && d == 1) ==> civilDate(y, m, d, l) == civilYearStart(y, l))
+
 //@ func time.Date
-//@ trusted "stdlib time model: only 1 January 00:00:00.0 is given a meaning"
+//@ trusted "stdlib time model: only midnights are given a meaning (civilDate; 1 January is the year start)"
 //@ pure
 //@ ensures loc(result) == loc
-//@ ensures (month == 1 && day == 1 && hour == 0 && min == 0 && sec == 0 && nsec == 0) ==> abs(result) == civilYearStart(year, loc)
+//@ ensures (hour == 0 && min == 0 && sec == 0 && nsec == 0) ==> abs(result) == civilDate(year, month, day, loc)
 
 //@ func (time.Time).AddDate
 //@ trusted "stdlib time model: AddDate(0,0,d) moves by d civil days"
@@ -114,6 +117,8 @@ package utils
 
 //@ axiom #yearBracket: forallint(a, l, pattern(civilYear(a, l)), civilYearStart(civilYear(a, l), l) <= a && a < civilYearStart(civilYear(a, l) + 1, l))
 //@ axiom #yearUnique: forallint(a, l, y, pattern(civilYearStart(y, l), civilYear(a, l)), (civilYearStart(y, l) <= a && a < civilYearStart(y + 1, l)) ==> civilYear(a, l) == y)
+// every representable time.Time has a year of magnitude below 3e11 (int64 seconds since year 1)
+//@ axiom #yearRange: forallint(a, l, pattern(civilYear(a, l)), 0 - 300000000000 <= civilYear(a, l) && civilYear(a, l) <= 300000000000)
 // A-TZ (fixed-offset zone, or a zone whose offset is the same on consecutive 1 Januaries): a year is 365 or 366 days long.
 //@ axiom #yearLen: forallint(y, l, pattern(civilYearStart(y, l)), civilYearStart(y + 1, l) - civilYearStart(y, l) == 365*86400000000000 || civilYearStart(y + 1, l) - civilYearStart(y, l) == 366*86400000000000)
 // A-FIXED (fixed-offset zone): civil days are 86400 s long.
